@@ -33,16 +33,20 @@ KindPairs == {<<"model", "MODEL">>,
 KindOf == [i \in {p[1] : p \in KindPairs} |-> (CHOOSE p \in KindPairs : p[1] = i)[2]]
 Items == DOMAIN KindOf                     \* the 13 documented kinds; "math" (an id inside MathML) is extra
 Kinds == {KindOf[i] : i \in Items}
+\* the encapsulation id of d1, a top-level component without children: no component_ref element exists for it (nothing has to be
+\* assigned), but the object carries the id, the annotator lists it, and a new identifier must differ from it
+Loose == {"cref:d1"}
+Listed == Items \cup Loose
 RepItems == {"model", "enc", "imp", "units:u1", "unit:u1/1", "comp:c2", "cref:c1", "var:d1/y", "reset", "tv", "rv", "map:c1y-d1y", "conn:c1-d1"}
 Models == {"m1", "m2"}
 
 \* ---------------------------------------------------------------- reference semantics (predicates over pre / post id maps)
 Present(ids) == {ids[i] : i \in DOMAIN ids} \ {NoneS}          \* every identifier anywhere in the model, MathML included
 NewItems(pre, post) == {i \in Items : post[i] # pre[i]}
-NonDestructive(pre, post, except) == \A i \in Items \ except : pre[i] # NoneS => post[i] = pre[i]
+NonDestructive(pre, post, except) == \A i \in Listed \ except : pre[i] # NoneS => post[i] = pre[i]
 Fresh(pre, post) == /\ \A i \in NewItems(pre, post) : post[i] # NoneS /\ post[i] \notin Present(pre)
                     /\ \A i, j \in NewItems(pre, post) : i # j => post[i] # post[j]
 Complete(post, which) == \A i \in which : post[i] # NoneS
-OnlyTouches(pre, post, which) == \A i \in Items \ which : post[i] = pre[i]
-CountOf(ids, id) == Cardinality({i \in Items : ids[i] = id})
+OnlyTouches(pre, post, which) == \A i \in Listed \ which : post[i] = pre[i]
+CountOf(ids, id) == Cardinality({i \in Listed : ids[i] = id})
 =============================================================================
